@@ -946,6 +946,28 @@ func (x *Exec) jump(p *Path, b *ssa.BasicBlock) bool {
 	return true
 }
 
+// iterOf finds the map iterator driven by a `next` in the loop head block.
+func (x *Exec) iterOf(p *Path, head *ssa.BasicBlock) (SV, bool) {
+	for _, in := range head.Instrs {
+		if nx, ok := in.(*ssa.Next); ok {
+			if sv, ok := p.frames[0].env[nx.Iter]; ok && sv.K == KIter {
+				return sv, true
+			}
+		}
+	}
+	return SV{}, false
+}
+
+func (x *Exec) iterVars(p *Path, env *SpecEnv, head *ssa.BasicBlock) *SpecEnv {
+	if it, ok := x.iterOf(p, head); ok {
+		env = env.with("idx", term(fmt.Sprintf("(select (CInt %s) %s)", env.H, it.Loc.Cell), SInt))
+		env = env.with("ord", term(it.Arr, SOrd))
+		env = env.with("ordn", term(it.Len, SInt))
+		env = env.with("ordpos", term(it.Off, SOrdInv))
+	}
+	return env
+}
+
 func (x *Exec) loopVars(env *SpecEnv, phis []*ssa.Phi, vals []SV) *SpecEnv {
 	for i, ph := range phis {
 		name := ph.Comment
@@ -970,7 +992,7 @@ func (x *Exec) loopEdge(p *Path, li *loopInfo, from *ssa.BasicBlock, phis []*ssa
 	entering := !li.body[from]
 	tag := fmt.Sprintf("loop%d", li.ord)
 	check := func(stage string) {
-		env := x.loopVars(x.specEnv(p), phis, vals)
+		env := x.iterVars(p, x.loopVars(x.specEnv(p), phis, vals), li.head)
 		for _, lt := range ls.Lets {
 			sv, err := env.evalSV(lt.E)
 			if err != nil {
@@ -1016,7 +1038,7 @@ func (x *Exec) loopEdge(p *Path, li *loopInfo, from *ssa.BasicBlock, phis []*ssa
 		return false
 	}
 	{
-		eenv := x.loopVars(x.specEnv(p), phis, vals)
+		eenv := x.iterVars(p, x.loopVars(x.specEnv(p), phis, vals), li.head)
 		for _, lt := range ls.ELets {
 			sv, err := eenv.evalSV(lt.E)
 			if err != nil {
@@ -1045,9 +1067,12 @@ func (x *Exec) loopEdge(p *Path, li *loopInfo, from *ssa.BasicBlock, phis []*ssa
 		lf, base := &x.cur.frame, p.H0
 		if len(ls.Assigns) > 0 {
 			lf, base = &frameSet{}, p.H
-			aenv := x.loopVars(x.specEnv(p), phis, vals)
+			aenv := x.iterVars(p, x.loopVars(x.specEnv(p), phis, vals), li.head)
 			for _, as := range ls.Assigns {
 				x.addFrame(lf, aenv, as.E)
+			}
+			if it, ok := x.iterOf(p, li.head); ok {
+				lf.cells = append(lf.cells, it.Loc.Cell)
 			}
 			p.loopFrame, p.loopBase, p.loopBody = lf, base, li.body
 		}
@@ -1069,7 +1094,7 @@ func (x *Exec) loopEdge(p *Path, li *loopInfo, from *ssa.BasicBlock, phis []*ssa
 			p.assume(fmt.Sprintf("(< %s (next %s))", id, hb))
 		}
 	}
-	env := x.loopVars(x.specEnv(p), phis, vals)
+	env := x.iterVars(p, x.loopVars(x.specEnv(p), phis, vals), li.head)
 	for _, lt := range ls.Lets {
 		sv, err := env.evalSV(lt.E)
 		if err == nil {
@@ -1168,7 +1193,14 @@ func (x *Exec) exitNormal(p *Path, results []SV, in ssa.Instruction) {
 		x.oblig(p, "exit/trace-unchanged", fmt.Sprintf("(and (= (TrLen %s) (TrLen %s)) (= (TrA %s) (TrA %s)) (= (TrB %s) (TrB %s)))", p.H, p.H0, p.H, p.H0, p.H, p.H0), ct.Props, x.pos(in))
 	}
 	if ct.Flags["pure"] {
-		x.oblig(p, "pure/heap-unchanged", fmt.Sprintf("(= %s %s)", p.H, p.H0), ct.Props, x.pos(in))
+		goal := fmt.Sprintf("(= %s %s)", p.H, p.H0)
+		if p.H != p.H0 {
+			// allocations of ghost iterator cells are invisible to callers: nothing that existed may have changed
+			ax := frameAxioms(&frameSet{}, p.H0, p.H)
+			ax = append(ax, fmt.Sprintf("(= (TrLen %s) (TrLen %s))", p.H, p.H0), fmt.Sprintf("(= (TrA %s) (TrA %s))", p.H, p.H0), fmt.Sprintf("(= (TrB %s) (TrB %s))", p.H, p.H0))
+			goal = "(and " + strings.Join(ax, " ") + ")"
+		}
+		x.oblig(p, "pure/heap-unchanged", goal, ct.Props, x.pos(in))
 	} else if p.H != p.wfKnown && !ct.Flags["nowf"] {
 		x.wfOblig(p, "exit")
 		x.oblig(p, "exit/fresh-containers-own-fresh-storage", freshOwn(p.H0, p.H), ct.Props, x.pos(in))
